@@ -6,14 +6,17 @@
 EXTENDS Naturals, FiniteSets, Sequences, TLC
 
 Forms    == {"text", "bytes"}
-Cookies  == {"none", "utf-8", "latin-1", "cp1252", "iso-8859-15", "ascii"}
+Cookies  == {"none", "utf-8", "latin-1", "cp1252", "iso-8859-15", "ascii",
+             \* spellings the tokenizer normalises itself (get_normal_name): an end-of-line suffix in the emacs style, `_` for `-`, upper case
+             "utf-8-unix", "latin-1-dos", "ISO_8859_15", "Latin_1"}
 Newlines == {"LF", "CRLF", "CR"}
 Shebangs == {"none", "plain", "with-args", "non-ascii", "second-line-only", "hash-only", "space-before",
-             "with-formfeed", "with-x85", "with-linesep"}     \* characters str.splitlines() treats as line ends but the tokenizer does not
+             "with-formfeed", "with-x85", "with-linesep", "with-cookie"}     \* (with-cookie: the #! line itself carries a PEP 263 declaration)
+             \* characters str.splitlines() treats as line ends but the tokenizer does not
 Configs  == [form : Forms, bom : BOOLEAN, cookie : Cookies, newline : Newlines, shebang : Shebangs, preserve : BOOLEAN]
 
 \* a real shebang is a first line that starts with the two characters #!
-HasShebang(c) == c.shebang \in {"plain", "with-args", "non-ascii", "with-formfeed", "with-x85", "with-linesep"}
+HasShebang(c) == c.shebang \in {"plain", "with-args", "non-ascii", "with-formfeed", "with-x85", "with-linesep", "with-cookie"}
 
 \* with a BOM the source does not start with #! (bytes) / starts with U+FEFF (text): left unconstrained
 Constrained(c) == ~c.bom
@@ -24,5 +27,6 @@ MustReproduce(c) == Constrained(c) /\ HasShebang(c) /\ c.preserve
 MustBeAbsent(c)  == Constrained(c) /\ (~HasShebang(c) \/ ~c.preserve)
 
 \* a cookie other than UTF-8 together with a BOM is rejected by the interpreter itself
-InLanguage(c) == ~(c.bom /\ c.cookie \notin {"none", "utf-8"})
+InLanguage(c) == /\ ~(c.bom /\ c.cookie \notin {"none", "utf-8", "utf-8-unix"})
+                 /\ (c.shebang = "with-cookie" => (c.cookie = "none" /\ ~c.bom))      \* the declaration on the #! line is the only one
 =============================================================================
